@@ -240,6 +240,7 @@ Section WithEnv.
   Definition bd_push (toi : N) (oti : roti) (sbn esi : N) (payload : list N) (b : bdec) : bdec * bool :=
     if bd_completed b then (b, false)
     else if negb (bd_alloc b) then (b, e_debug E)
+    else if ro_e oti <? lenN_ payload then (b, false)   (* D47: a symbol longer than the encoding symbol length is discarded *)
     else
       let k := bd_k b in
       let accept :=
